@@ -139,11 +139,11 @@ def campaign(ctx: Ctx, prop: str, profile: dict, n: int, corpus: list, required_
                 ctx.count("has_dependencies")
             if judged["diff"] is not None:
                 diffs.append((scen, out, judged))
-                continue
-            validated += 1
+            else:
+                validated += 1
             rel = relevant(prop, judged, scen)
             if not rel:
-                n_ok += 1
+                n_ok += judged["diff"] is None
                 continue
             unknown = []
             for o in rel:
@@ -180,49 +180,61 @@ def campaign(ctx: Ctx, prop: str, profile: dict, n: int, corpus: list, required_
         if key in seen:
             continue
         seen.add(key)
-        sig = {"kind": "oracle", "oracles": list(key), "failing_input": True}
+        sig = {"kind": "oracle" if judged["diff"] is None else "correspondence+oracle", "oracles": list(key), "failing_input": True}
         sig.update({k: v for k, v in unknown[0][0].items() if k in ("region",)})
         ctx.violation(sig, {"what": "property oracle failed on the real executor", "scenario": clean(scen),
-                            "oracles": [o for _, o in unknown], "info": judged["info"],
+                            "oracles": [o for _, o in unknown], "info": judged["info"], "difference": judged["diff"],
                             "events_tail": out.get("events", [])[-40:], "obs": out.get("obs")})
 
-    # ---- correspondence differences: search for a failing input
+    # ---- correspondence differences without a failing input so far: search for one
     searched = 0
-    for scen, out, judged in diffs[:3]:
+    if diffs and not fails:
         found = None
+        # (1) the differing scenarios themselves under other schedule seeds, (2) a fresh, larger campaign
         tries = []
-        cands = [scen] + shrink(scen)[:2]
-        for c in cands:
+        for scen, out, judged in diffs[:4]:
             for k in range(seeds_on_diff):
-                s2 = copy.deepcopy(c)
+                s2 = copy.deepcopy(clean(scen))
                 s2["seed"] = (scen.get("seed", 0) + 7919 * (k + 1)) % (1 << 30)
                 s2["perturb"] = {r: [0, 0.2, 0.5, 0.8][(k + j) % 4] for j, r in enumerate(("main", "resolver", "disp", "worker"))}
                 tries.append(s2)
-        outs2 = eb.run_many(tries, jobs=12)
-        searched += len(tries)
-        for s2, o2 in zip([scen] + tries, [out] + outs2):
-            try:
-                j2 = eb.judge(m, s2, o2)
-            except InfraError:
-                continue
-            rel = [o for o in relevant(prop, j2, s2)
-                   if not (region_of(s2, j2, o) and any(k.get("status") == "known" and k["signature"].get("region") == region_of(s2, j2, o)["region"] for k in ctx.known))]
-            if rel:
-                found = (s2, o2, j2, rel)
+        import random as _random
+
+        srng = _random.Random(f"search:{prop}:{ctx.seed}")
+        tries += [copy.deepcopy(clean(sc)) for sc in corpus]
+        tries += [eb.gen_scenario(srng, profile) for _ in range(max(150, 2 * n) if ctx.tier == "quick" else 3 * n)]
+        for lo in range(0, len(tries), 60):
+            chunk = tries[lo:lo + 60]
+            outs2 = eb.run_many(chunk, jobs=int(os.environ.get("VERIF_JOBS", "12")))
+            searched += len(chunk)
+            for s2, o2 in zip(chunk, outs2):
+                try:
+                    j2 = eb.judge(m, s2, o2)
+                except InfraError:
+                    continue
+                rel = [o for o in relevant(prop, j2, s2)
+                       if not (region_of(s2, j2, o) and any(k.get("status") == "known" and k["signature"].get("region") == region_of(s2, j2, o)["region"] for k in ctx.known))]
+                if rel:
+                    found = (s2, o2, j2, rel)
+                    break
+            if found:
                 break
+        scen, out, judged = diffs[0]
         if found:
             s2, o2, j2, rel = found
-            ctx.violation({"kind": "correspondence+oracle", "oracles": sorted(o["oracle"] for o in rel), "failing_input": True},
-                          {"what": "trace of the real executor is not a run of the Lean model Sys, and the property oracle fails on this input",
-                           "scenario": clean(s2), "oracles": rel, "difference": judged["diff"], "info": j2["info"],
-                           "events_tail": o2.get("events", [])[-40:]})
+            ctx.violation({"kind": "correspondence+oracle", "oracles": sorted(set(o["oracle"] for o in rel)), "failing_input": True},
+                          {"what": "traces of the real executor are not runs of the Lean model Sys, and the property oracle fails on this input "
+                                   "(found by the failing-input search after the correspondence broke)",
+                           "scenario": clean(s2), "oracles": rel, "first_difference": judged["diff"], "difference_here": j2["diff"],
+                           "info": j2["info"], "events_tail": o2.get("events", [])[-40:], "obs": o2.get("obs")})
         else:
             ctx.violation({"kind": "correspondence", "failing_input": False},
                           {"what": "trace of the real executor is not a run of the Lean model Sys (engine B trace validation); "
-                                   "the theorems of Props/%s.lean are no longer shown to apply to the code; no failing input found in %d re-executions"
+                                   "the theorems of Props/%s*.lean are no longer shown to apply to the code; no failing input found in %d further executions"
                                    % (prop, searched),
                            "correspondence": "engine B: vh.sysmap.map_events + modeld sys_replay (Sys.step)",
-                           "theorems_no_longer_applicable": "ExecModel/Props/%s.lean" % prop,
+                           "theorems_no_longer_applicable": "ExecModel/Props/%s*.lean" % prop,
+                           "differing_scenarios": len(diffs),
                            "scenario": clean(scen), "difference": judged["diff"],
                            "labels_tail": judged["labels"][-25:], "events_tail": out.get("events", [])[-40:]},
                           no_input=True)
